@@ -270,3 +270,95 @@ def clearsRatioOnly : FSetter → CacheId → Bool
   | _, _ => true
 
 end KawinV.NucHist
+
+/-! ### Round 6 (a): `nucleationBarrier` on an ARRAY of driving forces (NucleationRate.py 38-48, bulk / dislocation branch)
+
+```
+indices = volumeDrivingForce > 0
+Rmin    = precipitate.Rmin * ones(shape);  Rcrit = zeros(shape)
+RcritProposal  = 2 f gamma / volumeDrivingForce[indices]
+Rcrit[indices] = np.amax([RcritProposal, Rmin[indices]], axis=0)
+```
+modelled as it is written: boolean mask, compressed sub-arrays, ELEMENT-WISE maximum (`axis=0`) of the two compressed
+arrays, scatter into the zero array.  `barrierArrayGlobalMax` is NOT the code: the maximum without `axis` (one number for
+the whole batch), kept for the witness. -/
+namespace KawinV.IC
+section barrierArray
+variable {α : Type} [Add α] [Sub α] [Mul α] [Div α] [Neg α] [One α] [Zero α] [OfNat α 2] [KawinV.Trans α]
+  [LT α] [DecidableLT α]
+
+/-- `a[mask]` -/
+def compress {β : Type} : List Bool → List β → List β
+  | true :: ms, x :: xs => x :: compress ms xs
+  | false :: ms, _ :: xs => compress ms xs
+  | _, _ => []
+
+/-- `out = zeros; out[mask] = vals` -/
+def scatter {β : Type} (zero : β) : List Bool → List β → List β
+  | [], _ => []
+  | false :: ms, vs => zero :: scatter zero ms vs
+  | true :: ms, v :: vs => v :: scatter zero ms vs
+  | true :: ms, [] => zero :: scatter zero ms []
+
+/-- `np.amax([a, b], axis=0)` entry by entry -/
+def amax2 (a b : α) : α := if a < b then b else a
+
+/-- `nucleationBarrier(array)`: the critical radii, one per condition -/
+def barrierArray (f gamma Rmin : α) (dGs : List α) : List α :=
+  scatter (0 : α) (dGs.map (fun d => decide ((0 : α) < d)))
+    (List.zipWith amax2
+      ((compress (dGs.map (fun d => decide ((0 : α) < d))) dGs).map (KawinV.Gen.C12.rcritProposal f gamma))
+      (compress (dGs.map (fun d => decide ((0 : α) < d))) (dGs.map (fun _ => Rmin))))
+
+/-- `np.amax(list)` of a non-empty list given as head and tail -/
+def amaxList (x : α) (xs : List α) : α := xs.foldl amax2 x
+
+/-- NOT the code: `np.amax([RcritProposal, Rmin[indices]])` without `axis` - ONE number, the largest entry of both
+compressed arrays, broadcast into every entry with a driving force -/
+def barrierArrayGlobalMax (f gamma Rmin : α) (dGs : List α) : List α :=
+  let mask := dGs.map (fun d => decide ((0 : α) < d))
+  let props := (compress mask dGs).map (KawinV.Gen.C12.rcritProposal f gamma)
+  match props ++ compress mask (dGs.map (fun _ => Rmin)) with
+  | [] => scatter (0 : α) mask []
+  | v :: vs => scatter (0 : α) mask (props.map (fun _ => amaxList v vs))
+
+end barrierArray
+
+/-! ### Round 6 (b): which precipitate's parameters enter the Gibbs-Thomson energies of phase `p` in
+`PrecipitateModel._singleGrowthMulti` (KWNEuler.py 562-620)
+
+`particleGibbs(radius, phase)` → `precipitateParameters[phaseIndex(phase)].computeGibbsThomsonContribution(radius)` with
+`phaseIndex(None) = 0`.  The growth call of phase `p` passes `phase = precParams.phase` (`some p` here). -/
+section multiphase
+variable {α : Type} [Add α] [Sub α] [Mul α] [Div α] [Neg α] [One α] [OfNat α 2] [KawinV.Trans α]
+
+/-- per-precipitate parameters read by `computeGibbsThomsonContribution` (constant aspect ratio / strain energy) -/
+structure PhasePar (α : Type) where
+  vm : α
+  e : α
+  f : α
+  gamma : α
+
+/-- `phaseIndex(phase)`: `None` is the first precipitate -/
+def phaseIndex : Option Nat → Nat
+  | none => 0
+  | some p => p
+
+/-- `model.particleGibbs(R, phase)` -/
+def particleGibbs (ps : List (PhasePar α)) (ph : Option Nat) (R : α) : Option α :=
+  (ps[phaseIndex ph]?).map (fun q => KawinV.Gen.C12.gExtra q.vm q.e q.f q.gamma R)
+
+/-- growth rate of a class of radius `R` of phase `p` as `_singleGrowthMulti` computes it: chemical driving force
+`(dGv + E_p) Vm_p` from phase `p`'s parameters, Gibbs-Thomson energy from `particleGibbs(R, arg p)`, the regenerated growth
+law, times the kinetic factor.  `arg` is the phase argument of the `particleGibbs` call: `some` in the code. -/
+def growthOfPhase (ps : List (PhasePar α)) (arg : Nat → Option Nat) (p : Nat) (kf mc R dGv : α) : Option α :=
+  match ps[p]?, particleGibbs ps (arg p) R with
+  | some q, some ge => some (kf * KawinV.Gen.C12.growthMulti mc R ((dGv + q.e) * q.vm) ge)
+  | _, _ => none
+
+/-- the Gibbs-Thomson energies handed to the growth law for phase `p`, one per class boundary -/
+def gibbsArgs (ps : List (PhasePar α)) (arg : Nat → Option Nat) (p : Nat) (bounds : List α) : List (Option α) :=
+  bounds.map (particleGibbs ps (arg p))
+
+end multiphase
+end KawinV.IC
